@@ -114,7 +114,7 @@ def main(argv=None) -> int:
             for v in breaking_variants():
                 futs.append(ex.submit(run_breaking, v, props if a.props else None))
         if a.only in ("", "twins"):
-            for k in ("unparse", "pad", "rename", "kwshuffle", "ifswap"):
+            for k in ("unparse", "pad", "rename", "kwshuffle", "ifswap", "nodoc", "swapassign"):
                 futs.append(ex.submit(run_twin, k, props))
         for f in futs:
             results.append(f.result())
